@@ -2557,3 +2557,621 @@ def r11_13(ctx, rule):
                      'diff holds two removals of it -- overlapping list operations' % (ast.unparse(bad[0]), ast.unparse(bad[1])), bad[2] if bad else c)
     if n < 2:
         raise AnalysisError('R11.13: fewer than two custom decisions found in the strategies module')
+
+
+@extra('C15', 'R15.11', 'after the last collection of diffs has been patched in, apply_decisions / applyDecisions only return the document (Python: through the nbformat type '
+       'conversion): neither side normalises, renumbers or repairs the merged document on its own', 2)
+def r15_11(ctx, rule):
+    from ..tsscan import TsFile
+    repo = ctx.repo
+    fid = 'nbdime.merging.decisions:apply_decisions'
+    fn = repo.func(fid)
+    dparam = fn.args.args[1].arg if len(fn.args.args) > 1 else 'decisions'
+    loops = [i for i, st in enumerate(fn.body) if isinstance(st, ast.For) and any(isinstance(x, ast.Name) and x.id == dparam for x in ast.walk(st.iter))]
+    if not loops:
+        raise AnalysisError('apply_decisions: decision loop not found')
+    tail = fn.body[loops[0] + 1:]
+    rets = [st for st in tail if isinstance(st, ast.Return)]
+    if not rets or not isinstance(rets[-1].value, ast.Name):
+        raise AnalysisError('apply_decisions: does not end in `return <name>`')
+    doc = rets[-1].value.id
+    PURE_CONVERSIONS = {'nbformat.from_dict', 'from_dict', 'nbformat.NotebookNode', 'NotebookNode'}
+    bad = []
+    for st in tail:
+        if isinstance(st, ast.Return):
+            continue
+        if isinstance(st, ast.If):
+            # the "apply the last collection" block: stores are patch(...) results only
+            stores = [x for x in ast.walk(st) if isinstance(x, ast.Assign)]
+            others = [x for b in (st.body, st.orelse) for y in b for x in ast.walk(y) if isinstance(x, ast.stmt) and not isinstance(x, (ast.Assign, ast.If, ast.Pass))]
+            if all(isinstance(a.value, ast.Call) and dotted(a.value.func) == 'patch' for a in stores) and not others:
+                continue
+            bad.append(st)
+            continue
+        if isinstance(st, ast.Assign) and len(st.targets) == 1 and dotted(st.targets[0]) == doc and isinstance(st.value, ast.Call) and \
+                dotted(st.value.func) in PURE_CONVERSIONS and len(st.value.args) == 1 and dotted(st.value.args[0]) == doc:
+            continue
+        if isinstance(st, ast.Expr) and isinstance(st.value, ast.Constant):
+            continue
+        bad.append(st)
+    ctx.inst(rule, fid, 'after the decision loop: %d statement(s) besides the final patch, the type conversion and the return' % len(bad), not bad,
+             'the patched document is returned as it is' if not bad else
+             '`%s` works on the merged document after the decisions have been applied; the browser\'s applyDecisions returns right after the last patch, so the '
+             'two sides give different documents for the same (base, decisions) whenever that step changes anything' % repo.norm(bad[0])[:80], bad[0] if bad else fn)
+    ts = TsFile(repo, 'packages/nbdime/src/merge/decisions.ts')
+    body = ts.function_body('applyDecisions')
+    # tokens after the last top-level `for (...) {...}`: depth-1 scan
+    depth, last_for_end, i = 0, None, 0
+    toks = body
+    while i < len(toks):
+        t = toks[i]
+        if t.kind == 'punct' and t.text == '{':
+            depth += 1
+        elif t.kind == 'punct' and t.text == '}':
+            depth -= 1
+        elif t.kind == 'id' and t.text == 'for' and depth == 1:
+            # skip the header (...) and the block {...}
+            j = i + 1
+            d = 0
+            while j < len(toks):
+                if toks[j].text == '(':
+                    d += 1
+                elif toks[j].text == ')':
+                    d -= 1
+                    if d == 0:
+                        break
+                j += 1
+            k = j + 1
+            d = 0
+            while k < len(toks):
+                if toks[k].text == '{':
+                    d += 1
+                elif toks[k].text == '}':
+                    d -= 1
+                    if d == 0:
+                        break
+                k += 1
+            last_for_end = k
+            i = k
+        i += 1
+    if last_for_end is None:
+        raise AnalysisError('applyDecisions: decision loop not found')
+    tail_t = toks[last_for_end + 1:-1]
+    # allowed: one `if (...) { ... patch( ... ) ... }` block and `return <id>;`
+    txt = [t.text for t in tail_t]
+    calls = [txt[i] for i in range(len(txt) - 1) if txt[i + 1] == '(' and tail_t[i].kind == 'id' and txt[i] not in ('if',)]
+    ok = set(calls) <= {'patch'} and txt[-3:-1] != [] and 'return' in txt
+    ctx.inst(rule, 'packages/nbdime/src/merge/decisions.ts:applyDecisions', 'after the decision loop: calls %s' % sorted(set(calls)), ok,
+             'the patched document is returned as it is' if ok else 'the browser side post-processes the merged document (%s); Python does not' % sorted(set(calls) - {'patch'}), None)
+
+
+@extra('C15', 'R15.12', 'the list merger registers its decisions in ONE pass over the chunks, in chunk order: the browser applies the decisions of a list in the order they '
+       'are sent (it does not re-sort list operations the way Python\'s combine_patches does), so a decision for a higher index must not precede one for a lower index', 2)
+def r15_12(ctx, rule):
+    from ..util import local_defs
+    repo, cg = ctx.repo, ctx.cg
+    fid = 'nbdime.merging.generic:_merge_lists'
+    fn = repo.func(fid)
+    defs = local_defs(fn)
+    builders = {t.id for n in walk_no_nested(fn) if isinstance(n, ast.Assign) and isinstance(n.value, ast.Call) and (dotted(n.value.func) or '').endswith('MergeDecisionBuilder')
+                for t in n.targets if isinstance(t, ast.Name)}
+    if len(builders) != 1:
+        raise AnalysisError('_merge_lists: local decision builder not found')
+    b = next(iter(builders))
+
+    def from_chunks(e, seen=None):
+        seen = set() if seen is None else seen
+        for x in ast.walk(e):
+            if isinstance(x, ast.Call) and any(t == ('func', 'nbdime.merging.chunks:make_merge_chunks') for t in cg.resolve(x.func, fn)):
+                return True
+            if isinstance(x, ast.Name) and x.id in defs and x.id not in seen:
+                seen.add(x.id)
+                if any(from_chunks(v, seen) for v, k, st in defs[x.id] if k in ('assign', 'for', 'unpack')):
+                    return True
+        return False
+    loops = [n for n in walk_no_nested(fn) if isinstance(n, ast.For) and from_chunks(n.iter)]
+    top = [l for l in loops if not any(l is not o and any(x is l for x in ast.walk(o)) for o in loops)]
+    ok = len(top) == 1
+    plain = ok and (isinstance(top[0].iter, ast.Name) and all(isinstance(v, ast.Call) for v, k, st in defs.get(top[0].iter.id, []) if k == 'assign') or isinstance(top[0].iter, ast.Call))
+    ctx.inst(rule, fid, '%d loop(s) over the chunks' % len(top), ok and plain,
+             'one pass, over the chunk list as make_merge_chunks returns it' if ok and plain else
+             ('the chunks are walked %d times: decisions of a later pass come after decisions for higher indices of an earlier one' % len(top) if not ok else
+              'the chunk loop runs over a filtered / re-ordered copy of the chunk list'), top[0] if top else fn)
+    REGISTER = {'onesided', 'agreement', 'conflict', 'local', 'remote', 'base', 'local_then_remote', 'remote_then_local', 'custom', 'extend', 'add_decision', 'similar_insert', 'tryresolve'}
+    outside = []
+    n = 0
+    for c in calls_in(fn, nested=False):
+        if isinstance(c.func, ast.Attribute) and dotted(c.func.value) == b and c.func.attr in REGISTER:
+            n += 1
+            if not (top and any(c is x for x in ast.walk(top[0]))):
+                outside.append(c)
+    if n < 5:
+        raise AnalysisError('_merge_lists: fewer than 5 decision registrations found')
+    ctx.inst(rule, fid, '%d decision registrations, %d outside the chunk loop' % (n, len(outside)), not outside,
+             'every decision of the list is registered inside the chunk loop' if not outside else
+             '%s registers decisions outside the chunk loop: they are sent before/after the others whatever their index, and the browser applies list operations in '
+             'the order received ([addrange(4), removerange(1, 1)] brings a deleted item back)' % repo.norm(outside[0]), outside[0] if outside else fn)
+
+
+@extra('C16', 'R16.20', 'every notebook nbdime reads is converted to format major 4 on the way in (nbformat.read/reads with as_version=4): the renderers, differs and mergers '
+       'address `cells`, which older majors (worksheets) do not have', 4)
+def r16_20(ctx, rule):
+    repo, cg = ctx.repo, ctx.cg
+    n = 0
+    for fid, fn in sorted(repo.functions.items()):
+        for c in calls_in(fn, nested=False):
+            names = {t[1] for t in cg.resolve(c.func, fn) if t[0] == 'ext'} | {dotted(c.func) or ''}
+            if not names & {'nbformat.read', 'nbformat.reads'}:
+                continue
+            n += 1
+            av = next((k.value for k in c.keywords if k.arg == 'as_version'), c.args[1] if len(c.args) > 1 else None)
+            ok = av is not None and const_val(av) == 4
+            ctx.inst(rule, fid, repo.norm(c), ok, 'converted to major 4' if ok else
+                     'as_version is %s: a notebook stored in an older format major reaches the code as it is on disk (worksheets instead of cells) and rendering / '
+                     'diffing it raises AttributeError' % (ast.unparse(av) if av is not None else 'missing'), c)
+    if n == 0:
+        raise AnalysisError('R16.20: no nbformat.read call found')
+
+
+@extra('C16', 'R16.21', 'on the rendering path the result of a regular-expression search/match is not dereferenced without a test: tool output need not contain what the '
+       'pattern looks for (git prints "Binary files differ" and no hunk for text with a NUL)', 1)
+def r16_21(ctx, rule):
+    from ..util import truth_under
+    from ..cfg import CFG, cond_guards
+    repo, cg = ctx.repo, ctx.cg
+    n = 0
+    for fid, fn in sorted(repo.functions.items()):
+        if not fid.startswith(('nbdime.prettyprint:', 'nbdime.diff_utils:', 'nbdime.utils:', 'nbdime.nbshowapp:', 'nbdime.nbdiffapp:')):
+            continue
+        m = repo.mod_of(fn)
+        compiled = {nm for nm, vals in m.assigns.items() if any(isinstance(v, ast.Call) and dotted(v.func) == 're.compile' for v in vals)}
+        g = None
+        for c in calls_in(fn, nested=False):
+            if not (isinstance(c.func, ast.Attribute) and c.func.attr in ('search', 'match', 'fullmatch')):
+                continue
+            recv = dotted(c.func.value)
+            if not (recv == 're' or recv in compiled):
+                continue
+            n += 1
+            par = repo.parent(c)
+            if isinstance(par, (ast.Attribute, ast.Subscript)) and par.value is c:
+                ctx.inst(rule, fid, repo.norm(par), False,
+                         'the match object is dereferenced where it is produced: when the text does not contain the pattern the result is None and the renderer dies with '
+                         'AttributeError', c)
+                continue
+            # bound to a name: every dereference of the name is behind a test of it
+            st = repo.stmt_of(c)
+            bad = None
+            if isinstance(st, ast.Assign) and st.value is c and len(st.targets) == 1 and isinstance(st.targets[0], ast.Name):
+                nm = st.targets[0].id
+                g = g or CFG(fn)
+                for x in walk_no_nested(fn):
+                    if isinstance(x, (ast.Attribute, ast.Subscript)) and isinstance(x.value, ast.Name) and x.value.id == nm:
+                        xs = repo.stmt_of(x)
+                        guards = list(cond_guards(g, xs))
+                        p_, ch = repo.parent(x), x
+                        while p_ is not None and not isinstance(p_, ast.stmt):
+                            if isinstance(p_, ast.IfExp) and ch is p_.body:
+                                guards.append((p_.test, True))
+                            elif isinstance(p_, ast.IfExp) and ch is p_.orelse:
+                                guards.append((p_.test, False))
+                            elif isinstance(p_, ast.BoolOp) and isinstance(p_.op, ast.And) and ch is not p_.values[0]:
+                                guards.extend((v, True) for v in p_.values[:p_.values.index(ch)])
+                            ch, p_ = p_, repo.parent(p_)
+                        is_m = lambda e: isinstance(e, ast.Name) and e.id == nm
+                        def not_none(t, pol):
+                            if isinstance(t, ast.UnaryOp) and isinstance(t.op, ast.Not):
+                                return not_none(t.operand, not pol)
+                            if isinstance(t, ast.BoolOp) and ((isinstance(t.op, ast.And) and pol) or (isinstance(t.op, ast.Or) and not pol)):
+                                return any(not_none(v, pol) for v in t.values)
+                            if truth_under(t, pol, is_m) is True:
+                                return True
+                            for cmp_ in ast.walk(t):
+                                if isinstance(cmp_, ast.Compare) and len(cmp_.ops) == 1 and is_m(cmp_.left) and isinstance(cmp_.comparators[0], ast.Constant) and cmp_.comparators[0].value is None:
+                                    if (isinstance(cmp_.ops[0], ast.IsNot) and pol and cmp_ is t) or (isinstance(cmp_.ops[0], ast.Is) and not pol and cmp_ is t):
+                                        return True
+                            return False
+                        if not any(not_none(t, pol) for t, pol in guards):
+                            bad = x
+                            break
+            ctx.inst(rule, fid, repo.norm(c), bad is None, 'tested before use' if bad is None else
+                     '`%s` is used without a test of the match: None when the text does not contain the pattern' % repo.norm(bad), bad if bad is not None else c)
+    if n == 0:
+        ctx.inst(rule, 'nbdime.prettyprint', 'no regular-expression search on the rendering path', True, 'nothing to dereference', None, nontrivial=False)
+
+
+@extra('C17', 'R17.15', 'the path filters given on the command line reach git as they were typed: what resolve_diff_args returns as paths is built from the command-line '
+       'words by selection and list concatenation only (git pathspecs match at any depth and match deleted files; a glob against the working directory does neither)', 1)
+def r17_15(ctx, rule):
+    from ..util import local_defs
+    repo = ctx.repo
+    fid = 'nbdime.args:resolve_diff_args'
+    fn = repo.func(fid)
+    defs = local_defs(fn)
+    rets = [r for r in walk_no_nested(fn) if isinstance(r, ast.Return)]
+    if not rets or not all(isinstance(r.value, ast.Tuple) and len(r.value.elts) == 3 for r in rets):
+        raise AnalysisError('resolve_diff_args: returns are not 3-tuples')
+    muts = {}
+    for x in walk_no_nested(fn):
+        if isinstance(x, ast.Expr) and isinstance(x.value, ast.Call) and isinstance(x.value.func, ast.Attribute) and isinstance(x.value.func.value, ast.Name) and \
+                x.value.func.attr in ('append', 'extend', 'insert') and x.value.args:
+            muts.setdefault(x.value.func.value.id, []).append(x.value.args[-1])
+        if isinstance(x, ast.AugAssign) and isinstance(x.target, ast.Name):
+            muts.setdefault(x.target.id, []).append(x.value)
+
+    def foreign(e, seen):
+        """first sub-expression of the flow into e that is not selection/concatenation of command-line words"""
+        if e is None or isinstance(e, ast.Constant):
+            return None
+        if isinstance(e, ast.Name):
+            if e.id in seen:
+                return None
+            seen.add(e.id)
+            for v, k, st in defs.get(e.id, []):
+                if k == 'for' or k == 'unpack' and not isinstance(v, (ast.Tuple, ast.List)):
+                    r = foreign(v, seen)
+                else:
+                    r = foreign(v, seen)
+                if r is not None:
+                    return r
+            for v in muts.get(e.id, []):
+                r = foreign(v, seen)
+                if r is not None:
+                    return r
+            return None
+        if isinstance(e, ast.Attribute):
+            return None if dotted(e) and dotted(e).startswith('args.') else e
+        if isinstance(e, (ast.List, ast.Tuple)):
+            for x in e.elts:
+                r = foreign(x, seen)
+                if r is not None:
+                    return r
+            return None
+        if isinstance(e, ast.BinOp) and isinstance(e.op, ast.Add):
+            return foreign(e.left, seen) or foreign(e.right, seen)
+        if isinstance(e, ast.BoolOp):
+            for x in e.values:
+                r = foreign(x, seen)
+                if r is not None:
+                    return r
+            return None
+        if isinstance(e, ast.IfExp):
+            return foreign(e.body, seen) or foreign(e.orelse, seen)
+        if isinstance(e, ast.Subscript):
+            return foreign(e.value, seen)
+        if isinstance(e, ast.Starred):
+            return foreign(e.value, seen)
+        if isinstance(e, ast.Call) and dotted(e.func) == 'getattr' and len(e.args) >= 2 and dotted(e.args[0]) == 'args':
+            return None
+        if isinstance(e, ast.Call) and dotted(e.func) in ('list', 'tuple') and len(e.args) == 1:
+            return foreign(e.args[0], seen)
+        return e
+    for r in rets:
+        f = foreign(r.value.elts[2], set())
+        ctx.inst(rule, fid, repo.norm(r), f is None,
+                 'paths are the command-line words, selected and concatenated' if f is None else
+                 'the path filters pass through `%s` before they reach git: a pattern such as \'*.ipynb\' (a pathspec that matches nested and deleted notebooks) is '
+                 'narrowed to what exists in the current directory, or otherwise rewritten -- git is asked about other files than the user named' % ast.unparse(f)[:80], r)
+
+
+@extra('C17', 'R17.16', 'the clean filter is run the way git runs it, through the shell with the configured command line as it stands (a filter may be `LC_ALL=C sed ...`, '
+       'a pipeline, `~/bin/x`): check_output(<configured string>, shell=True)', 1)
+def r17_16(ctx, rule):
+    from ..util import local_defs
+    repo, cg = ctx.repo, ctx.cg
+    fid = 'nbdime.vcs.git.filter_integration:apply_possible_filter'
+    fn = repo.func(fid)
+    defs = local_defs(fn)
+    runs = [c for c in calls_in(fn, nested=False) if any(k.arg == 'stdin' for k in c.keywords) and
+            ({t[1] for t in cg.resolve(c.func, fn) if t[0] == 'ext'} | {dotted(c.func) or ''}) &
+            {'subprocess.check_output', 'subprocess.run', 'subprocess.Popen', 'subprocess.check_call', 'subprocess.call', 'check_output'}]
+    if len(runs) != 1:
+        raise AnalysisError('apply_possible_filter: the subprocess call that runs the filter (stdin=<file>) was not found')
+    c = runs[0]
+    shell = next((k.value for k in c.keywords if k.arg == 'shell'), None)
+    cmd = c.args[0] if c.args else next((k.value for k in c.keywords if k.arg == 'args'), None)
+    via_shell = shell is not None and const_val(shell) is True
+
+    def verbatim(e, seen):
+        if isinstance(e, ast.Name) and e.id not in seen:
+            seen.add(e.id)
+            ds = defs.get(e.id, [])
+            return bool(ds) and all(verbatim(v, seen) for v, k, st in ds)
+        if isinstance(e, ast.Call):
+            tg = [t for t in cg.resolve(e.func, fn) if t[0] == 'func']
+            return bool(tg) and all(t[1].startswith('nbdime.vcs.git.filter_integration:') for t in tg)     # the config reader
+        return False
+    ok = via_shell and cmd is not None and verbatim(cmd, set())
+    ctx.inst(rule, fid, repo.norm(c), ok,
+             'configured command line handed to the shell unchanged' if ok else
+             ('the filter is not run through a shell (shell=%s): a command that relies on shell syntax -- an environment assignment, a pipe, ~ -- fails to start, and the '
+              'caller then treats a modified notebook on disk as missing or unfiltered' % (ast.unparse(shell) if shell is not None else 'absent') if not via_shell else
+              'the command handed to the shell is not the configured string itself (%s)' % (ast.unparse(cmd) if cmd is not None else '?')), c)
+
+
+@extra('C18', 'R18.12', 'the repository-scope attributes file is <current directory>/.gitattributes and is used iff <current directory>/.git EXISTS (a directory in a clone, a '
+       'FILE in a linked worktree or submodule): no walk to parent directories, no directory-only probe -- a nested worktree must not write into the checkout around it', 2)
+def r18_12(ctx, rule):
+    repo, cg = ctx.repo, ctx.cg
+    fid = 'nbdime.utils:locate_gitattributes'
+    fn = repo.func(fid)
+    probes = []
+    for c in calls_in(fn, nested=False):
+        if any(isinstance(x, ast.Constant) and x.value == '.git' for a in c.args for x in ast.walk(a)):
+            names = {t[1] for t in cg.resolve(c.func, fn) if t[0] == 'ext'} | {dotted(c.func) or ''}
+            if names & {'os.path.exists', 'os.path.lexists', 'os.path.isdir', 'os.path.isfile', 'os.access', 'os.stat', 'os.listdir'} or \
+                    (dotted(c.func) or '').startswith('os.path.is'):
+                probes.append((c, names))
+    if not probes:
+        raise AnalysisError('locate_gitattributes: the probe for .git was not found')
+    for c, names in probes:
+        ok = bool(names & {'os.path.exists', 'os.path.lexists'})
+        ctx.inst(rule, fid, repo.norm(c), ok, 'existence probe' if ok else
+                 'the probe accepts only one kind of .git: in a linked worktree or a submodule .git is a file, so the top of that work tree is not recognised as a repository', c)
+    # the arm that holds the probe: no loop, no dirname (walk to the parents)
+    c0 = probes[0][0]
+    arm = None
+    for a in repo.ancestors(c0):
+        if isinstance(a, ast.If) and any(isinstance(x, ast.Compare) and any(isinstance(y, ast.Constant) and y.value in ('global', 'system') for y in ast.walk(x)) for x in ast.walk(a.test)):
+            arm = a
+    body = None
+    if arm is not None:
+        n_ = arm
+        while True:
+            if any(c0 is x for st in n_.orelse for x in ast.walk(st)):
+                if len(n_.orelse) == 1 and isinstance(n_.orelse[0], ast.If) and any(c0 is x for x in ast.walk(n_.orelse[0])) and \
+                        not any(c0 is x for x in ast.walk(n_.orelse[0].test)) and any(isinstance(y, ast.Constant) and y.value in ('global', 'system') for y in ast.walk(n_.orelse[0].test)):
+                    n_ = n_.orelse[0]
+                    continue
+                body = n_.orelse
+            break
+    if body is None:
+        body = [repo.stmt_of(c0)]
+        p_ = repo.parent(body[0])
+        while p_ is not None and p_ is not fn and isinstance(p_, (ast.While, ast.For)):
+            body = [p_]
+            p_ = repo.parent(p_)
+    loops = [x for st in body for x in ast.walk(st) if isinstance(x, (ast.While, ast.For))]
+    ups = [x for st in body for x in ast.walk(st) if isinstance(x, ast.Call) and (dotted(x.func) or '') in ('os.path.dirname', 'os.path.split') or
+           (isinstance(x, ast.Attribute) and x.attr in ('parent', 'parents'))]
+    ok = not loops and not ups
+    ctx.inst(rule, fid, 'repository scope: %d loop(s), %d step(s) to a parent directory' % (len(loops), len(ups)), ok,
+             'only the current directory is considered' if ok else
+             'the lookup walks up to parent directories: run at the top of a worktree or submodule that lies inside another checkout, it returns the OUTER repository\'s '
+             '.gitattributes -- enable appends its line there (a foreign file) and the repository where it was run gets none', (loops or ups or [fn])[0])
+
+
+@extra('C18', 'R18.13', 'disabling a driver removes its section whatever value is registered there: the section name is nbdime\'s own (diff/merge.jupyternotebook), and a '
+       'customised command (webdiff, extra flags) is still nbdime\'s driver -- the removal is not behind a test of a value read from the configuration', 2)
+def r18_13(ctx, rule):
+    from ..util import local_defs, depends_on
+    from ..cfg import CFG, cond_guards
+    repo, cg = ctx.repo, ctx.cg
+    for mod in ('nbdime.vcs.git.diffdriver', 'nbdime.vcs.git.mergedriver'):
+        fid = mod + ':disable'
+        fn = repo.func(fid)
+        defs = local_defs(fn)
+        g = CFG(fn)
+        rm = [c for c in calls_in(fn, nested=False) if any(isinstance(x, ast.Constant) and x.value == '--remove-section' for a in c.args for x in ast.walk(a))]
+        if not rm:
+            raise AnalysisError('%s: --remove-section call not found' % fid)
+        for c in rm:
+            st = repo.stmt_of(c)
+            dep = None
+            for t, pol in cond_guards(g, st):
+                r = depends_on(fn, t, lambda x: isinstance(x, ast.Call) and ((dotted(x.func) or '').endswith('check_output') or (dotted(x.func) or '').endswith('.run') or
+                                                                               (dotted(x.func) or '').endswith('Popen')), defs)
+                if r is not None:
+                    dep = t
+            ctx.inst(rule, fid, repo.norm(c), dep is None, 'unconditional with respect to the registered value' if dep is None else
+                     'the section is removed only if `%s` (a value read from the git configuration) holds: a driver registered with another nbdime command line '
+                     '(git-nbdiffdriver webdiff, extra flags) survives `--disable`, which reports success, and git keeps routing notebooks to nbdime' % ast.unparse(dep)[:70], c)
+
+
+@extra('C19', 'R19.12', 'recursive_update stores every entry under the key it was given: the loop key is not rebound, and every store / removal in the target uses it (section '
+       'names, option names and the PATHS of Ignore mappings are all keys here; normalising one kind rewrites the others)', 2)
+def r19_12(ctx, rule):
+    repo = ctx.repo
+    fn = repo.func('nbdime.config:recursive_update')
+    fid = repo.fid_of(fn)
+    loops = [n for n in walk_no_nested(fn) if isinstance(n, ast.For) and isinstance(n.iter, ast.Call) and isinstance(n.iter.func, ast.Attribute) and n.iter.func.attr == 'items']
+    if len(loops) != 1 or not (isinstance(loops[0].target, ast.Tuple) and isinstance(loops[0].target.elts[0], ast.Name)):
+        raise AnalysisError('recursive_update: `for k, v in new.items()` not found')
+    lp = loops[0]
+    k = lp.target.elts[0].id
+    tgt = fn.args.args[0].arg
+    rebinds = [x for st in lp.body for x in ast.walk(st) if isinstance(x, ast.Name) and x.id == k and isinstance(x.ctx, ast.Store)]
+    ctx.inst(rule, fid, 'loop key `%s`: %d rebinding(s)' % (k, len(rebinds)), not rebinds,
+             'the key is used as given' if not rebinds else
+             'the key is rewritten (%s) before it is stored: an Ignore path such as /metadata/my-key is filed under another path and matches nothing, and two distinct '
+             'keys set in different sections collapse into one' % repo.norm(repo.stmt_of(rebinds[0])), rebinds[0] if rebinds else lp)
+    bad = []
+    n = 0
+    for st in lp.body:
+        for x in ast.walk(st):
+            if isinstance(x, ast.Subscript) and dotted(x.value) == tgt:
+                n += 1
+                if not (isinstance(x.slice, ast.Name) and x.slice.id == k):
+                    bad.append(x)
+            if isinstance(x, ast.Call) and isinstance(x.func, ast.Attribute) and dotted(x.func.value) == tgt and x.func.attr in ('pop', 'setdefault', 'get', '__setitem__', '__delitem__') and x.args:
+                n += 1
+                if not (isinstance(x.args[0], ast.Name) and x.args[0].id == k):
+                    bad.append(x)
+    if n < 3:
+        raise AnalysisError('recursive_update: fewer than 3 keyed accesses of the target found')
+    ctx.inst(rule, fid, '%d keyed accesses of `%s`' % (n, tgt), not bad, 'all use the loop key' if not bad else
+             '`%s` addresses the target with something other than the loop key' % repo.norm(bad[0]), bad[0] if bad else lp)
+
+
+@extra('C20', 'R20.16', 'each tool endpoint consults the start-up arguments of its OWN tool only (diff handlers: difftool_args, merge handlers: mergetool_args), directly or '
+       'through helpers of its class: a merge-tool server must answer /api/diff from the request, not from the merge tool\'s files', 4)
+def r20_16(ctx, rule):
+    repo = ctx.repo
+    SRV_ = 'nbdime.webapp.nbdimeserver'
+    m = repo.mod(SRV_)
+    classes = {c.name: c for c in m.tree.body if isinstance(c, ast.ClassDef)}
+
+    def members(cname, seen=None):
+        """name -> def, own class first, then package bases"""
+        seen = seen or set()
+        out = {}
+        if cname in classes and cname not in seen:
+            seen.add(cname)
+            for b in classes[cname].bases:
+                bn = dotted(b)
+                if bn in classes:
+                    for k_, v_ in members(bn, seen).items():
+                        out.setdefault(k_, v_)
+            for st in classes[cname].body:
+                if isinstance(st, ast.FunctionDef):
+                    out[st.name] = st
+        return out
+
+    def keys_of(cname, f, depth=0, seen=None):
+        seen = seen if seen is not None else set()
+        if id(f) in seen:
+            return set()
+        seen.add(id(f))
+        ks = {x.value for x in ast.walk(f) if isinstance(x, ast.Constant) and x.value in ('difftool_args', 'mergetool_args')}
+        mem = members(cname)
+        for x in ast.walk(f):
+            if isinstance(x, ast.Attribute) and isinstance(x.value, ast.Name) and x.value.id == 'self' and x.attr in mem and depth < 3:
+                ks |= keys_of(cname, mem[x.attr], depth + 1, seen)
+        return ks
+    n = 0
+    for cname, cls in sorted(classes.items()):
+        own = 'difftool_args' if 'Diff' in cname else 'mergetool_args' if 'Merge' in cname else None
+        if own is None:
+            continue
+        for st in cls.body:
+            if not isinstance(st, ast.FunctionDef):
+                continue
+            ks = keys_of(cname, st)
+            if not ks:
+                continue
+            n += 1
+            other = ks - {own}
+            ctx.inst(rule, '%s:%s.%s' % (SRV_, cname, st.name), 'consults %s' % sorted(ks), not other,
+                     'own tool\'s start-up arguments only' if not other else
+                     'a %s endpoint also consults %s: on a server started as the other tool it ignores the request and answers from that tool\'s files (or raises KeyError '
+                     'for a name that tool does not have)' % ('diff' if own == 'difftool_args' else 'merge', sorted(other)), st)
+    if n < 4:
+        raise AnalysisError('R20.16: fewer than 4 tool-argument readers found among the handlers')
+
+
+def _r_mutable_defaults(ctx, rule):
+    """A default value is created once, when the function is defined: a list/dict/set default that is kept (stored on an object, returned) or
+    changed in place is one object shared by every call that relies on the default -- what one diff/merge adds to it is there for the next."""
+    repo = ctx.repo
+    n_fn = 0
+    found = 0
+    for fid, fn in sorted(repo.functions.items()):
+        a = fn.args
+        ds = list(zip(a.args[len(a.args) - len(a.defaults):], a.defaults)) + [(x, d) for x, d in zip(a.kwonlyargs, a.kw_defaults) if d is not None]
+        n_fn += 1
+        for p, d in ds:
+            mutable = isinstance(d, (ast.List, ast.Dict, ast.Set, ast.ListComp, ast.DictComp, ast.SetComp)) or \
+                (isinstance(d, ast.Call) and dotted(d.func) in ('list', 'dict', 'set', 'defaultdict', 'collections.defaultdict', 'OrderedDict', 'collections.OrderedDict', 'bytearray'))
+            if not mutable:
+                continue
+            found += 1
+            nm = p.arg
+            escapes = []
+            for x in walk_no_nested(fn):
+                if isinstance(x, ast.Assign) and isinstance(x.value, ast.Name) and x.value.id == nm and any(isinstance(t, (ast.Attribute, ast.Subscript)) for t in x.targets):
+                    escapes.append(('kept as %s' % ast.unparse(x.targets[0]), x))
+                if isinstance(x, ast.Return) and isinstance(x.value, ast.Name) and x.value.id == nm:
+                    escapes.append(('returned', x))
+                if isinstance(x, ast.Call) and isinstance(x.func, ast.Attribute) and isinstance(x.func.value, ast.Name) and x.func.value.id == nm and \
+                        x.func.attr in ('append', 'extend', 'insert', 'update', 'add', 'pop', 'remove', 'clear', 'setdefault', 'sort', 'reverse'):
+                    escapes.append(('changed in place by .%s()' % x.func.attr, x))
+                if isinstance(x, (ast.Assign, ast.AugAssign, ast.Delete)):
+                    tg = x.targets if isinstance(x, (ast.Assign, ast.Delete)) else [x.target]
+                    for t in tg:
+                        if isinstance(t, ast.Subscript) and isinstance(t.value, ast.Name) and t.value.id == nm:
+                            escapes.append(('item store', x))
+                        if isinstance(x, ast.AugAssign) and isinstance(t, ast.Name) and t.id == nm:
+                            escapes.append(('augmented in place', x))
+            ctx.inst(rule, fid, 'default %s=%s' % (nm, ast.unparse(d)), not escapes,
+                     'never kept or changed' if not escapes else
+                     'the default of `%s` is ONE object for all calls and it is %s: whatever one call (one merge, one request) puts into it is still there in the next -- '
+                     'the result depends on what the process did before' % (nm, escapes[0][0]), escapes[0][1] if escapes else fn)
+    if not found:
+        ctx.inst(rule, 'nbdime', '%d functions: no mutable default value' % n_fn, True, 'nothing shared between calls through a default', None)
+    if n_fn < 300:
+        raise AnalysisError('fewer than 300 functions examined for mutable defaults')
+
+
+@extra('C12', 'R12.13', 'no parameter default is a mutable object that the function keeps or changes (one object shared by all calls: process history leaks into later results)', 1)
+def r12_13(ctx, rule):
+    _r_mutable_defaults(ctx, rule)
+
+
+def _r_ignore_installed(ctx, rule):
+    """The Ignore mapping read from the configuration is installed whenever there is one: the only condition is the mapping itself."""
+    from ..util import local_defs, names_in
+    from ..cfg import CFG, cond_guards
+    repo, cg = ctx.repo, ctx.cg
+    fid = 'nbdime.args:ConfigBackedParser.parse_known_args'
+    fn = repo.func(fid)
+    calls = [c for c in calls_in(fn, nested=False) if any(t == ('func', 'nbdime.diffing.notebooks:set_notebook_diff_ignores') for t in cg.resolve(c.func, fn))]
+    if len(calls) != 1 or not calls[0].args:
+        raise AnalysisError('parse_known_args: the call that installs the configured Ignore mapping was not found')
+    c = calls[0]
+    var = names_in(c.args[0])
+    g = CFG(fn)
+    extra_ = []
+    for t, pol in cond_guards(g, repo.stmt_of(c)):
+        others = names_in(t) - var - {'None', 'True', 'False'}
+        if others:
+            extra_.append((t, sorted(others)))
+    ctx.inst(rule, fid, repo.norm(c) + ('  [also guarded by %s]' % '; '.join(repo.norm(t) for t, o in extra_) if extra_ else ''), not extra_,
+             'installed whenever the configuration has an Ignore mapping' if not extra_ else
+             'the configured Ignore mapping is installed only if `%s` allows it: with that condition false (a flag given, a boolean set in a config section) every configured '
+             'path ignore is silently dropped -- including paths no flag controls' % ast.unparse(extra_[0][0])[:80], c)
+
+
+@extra('C19', 'R19.13', 'the Ignore mapping of the configuration is installed whenever it is present: nothing but the mapping itself decides (flags and section booleans add to '
+       'it, they do not switch it off)', 1)
+def r19_13(ctx, rule):
+    _r_ignore_installed(ctx, rule)
+
+
+@extra('C14', 'R14.18', 'the Ignore mapping of the configuration is installed whenever it is present: nothing but the mapping itself decides', 1)
+def r14_18(ctx, rule):
+    _r_ignore_installed(ctx, rule)
+
+
+@extra('C06', 'R06.2', 'cell identity outranks content in the alignment of cells: in the predicate list for /cells (low to high precedence) the predicate that compares cell ids is '
+       'the LAST one -- a content predicate above it pairs a cell with the twin of another cell, and one side\'s diff reaches into a cell the other side owns', 1)
+def r06_2(ctx, rule):
+    repo, cg = ctx.repo, ctx.cg
+    NB_ = 'nbdime.diffing.notebooks'
+    tbl = repo.module_assign(NB_, 'notebook_predicates')
+    d = next((a for a in ast.walk(tbl) if isinstance(a, ast.Dict)), None)
+    if d is None:
+        raise AnalysisError('notebook_predicates: table literal not found')
+    lst = next((v for k, v in zip(d.keys, d.values) if const_val(k) == '/cells'), None)
+    if not isinstance(lst, (ast.List, ast.Tuple)) or len(lst.elts) < 2:
+        raise AnalysisError('notebook_predicates["/cells"] is not a list of predicates')
+    m = repo.mod(NB_)
+    id_based = []
+    for i, e in enumerate(lst.elts):
+        f = m.defs.get(dotted(e) or '')
+        if f is None:
+            try:
+                f = repo.func('%s:%s' % (NB_, dotted(e)))
+            except AnalysisError:
+                raise AnalysisError('notebook_predicates["/cells"]: predicate %s not resolved' % ast.unparse(e))
+        uses_id = any((isinstance(x, ast.Constant) and x.value == 'id') or (isinstance(x, ast.Attribute) and x.attr == 'id') for x in ast.walk(f))
+        other_fields = any(isinstance(x, ast.Constant) and x.value in ('source', 'outputs', 'cell_type') or isinstance(x, ast.Attribute) and x.attr in ('source', 'outputs', 'cell_type')
+                           for x in ast.walk(f))
+        if uses_id and not other_fields:
+            id_based.append(i)
+    if len(id_based) != 1:
+        raise AnalysisError('notebook_predicates["/cells"]: expected exactly one id-only predicate, found %d' % len(id_based))
+    ok = id_based[0] == len(lst.elts) - 1
+    ctx.inst(rule, NB_ + ':notebook_predicates', '/cells: %s' % [ast.unparse(e) for e in lst.elts], ok,
+             'the id predicate has the highest precedence' if ok else
+             'the id predicate is entry %d of %d: %s outranks it, and that predicate ignores id, metadata and execution count -- of two cells with equal content it pairs the '
+             'wrong twins, so a deletion on one side and an edit on the other land on the same cell' % (id_based[0] + 1, len(lst.elts), ast.unparse(lst.elts[-1])), lst)
